@@ -102,6 +102,12 @@ def make(st, L=None):
     if k == "Src": return Src(a[0])
     if k == "Lambda":
         return E.LambdaSimulation(a[0], _ctx, _acts, _rwd) if a[1] == -1 else E.LambdaSimulation(a[0], _ctx_r, _acts_r, _rwd_r, a[1])
+    if k == "Linear": return E.LinearSyntheticSimulation(a[0], a[1], a[2], a[3], a[4], list(s), a[5])
+    if k == "Bandit": return E.BanditSyntheticSimulation(nn(a[0]), a[1], a[2])
+    if k == "Neighbors": return E.NeighborsSyntheticSimulation(a[0], a[1], a[2], a[3], a[4], a[5])
+    if k == "Kernel": return E.KernelSyntheticSimulation(a[0], a[1], a[2], a[3], a[4], s[0], a[5], a[6], a[7])
+    if k == "MLP": return E.MLPSyntheticSimulation(a[0], a[1], a[2], a[3], a[4])
+    if k == "Supervised": return E.SupervisedSimulation(_X, _Y, None if s[0] == "None" else s[0])
     if k == "Binary": return F.Binary()
     if k == "Sparsify": return F.Sparsify(nb(a[0]), nb(a[1]))
     if k == "Densify": return F.Densify(a[0], s[0], nb(a[1]), nb(a[2]))
@@ -407,12 +413,14 @@ def check_object(o, exp, finadd, keys, L, op, tainted, read=None):
     lines = ["%d. %s" % (i + 1, " | ".join([str(st) for st in o._envs[i]] + (["BatchSafe(Finalize())"] if finadd[i] else []))) for i in range(n)]
     if str(o) != "\n".join(lines): raise Mismatch("str", "str() = %r, expected %r" % (str(o), "\n".join(lines)))
     for i in range(n):
-        vals = [v for st in o._envs[i] if hasattr(st, "params") for v in st.params.values()]
+        sup = exp[i][0][0] == "Supervised"       # a SupervisedSimulation adds 'n_actions' to its OWN params when it is first read (materialize reads): not compared
+        own = lambda st: [(k, v) for k, v in st.params.items() if not (sup and type(st).__name__ == "SupervisedSimulation" and k == "n_actions")]
+        vals = [v for st in o._envs[i] if hasattr(st, "params") for _, v in own(st)]
         if len(vals) != len(keys[i]):
             raise Mismatch("params:keys", "pipeline %d %s: its stages have %d params, the spec names the keys %s" % (i, show_pipe(exp[i]), len(vals), keys[i]))
         want = list(zip(keys[i], vals))
         for which, p in (("stored", o._envs[i]), ("indexed", o[i])):
-            got = list(p.params.items())
+            got = [(k, v) for k, v in p.params.items() if not (sup and k == "n_actions")]
             if got != want:
                 raise Mismatch("params:merge", "params of the %s pipeline %d %s = %s, expected %s" % (which, i, show_pipe(exp[i]), dict(got), dict(want)))
     if stored(o, L) != exp: raise Mismatch("observation-changed-the-object", "after len / iteration / index / str the object holds %s" % show_pipes(stored(o, L)))
@@ -426,7 +434,10 @@ def check_object(o, exp, finadd, keys, L, op, tainted, read=None):
                                "reading pipeline %d %s gives %s, its stages applied one after the other give %s" % (i, show_pipe(views[i]), str(got)[:300], str(want)[:300]))
 
 
-def replay(h, L, read=False):
+SIZED = {"from_linear", "from_bandit", "from_neighbors", "from_kernel", "from_mlp", "from_lambda"}
+
+
+def replay(h, L, read=False, read_sources=False):
     """-> None or (signature, text, step number)"""
     Environments = L["Environments"]
     objs = []; spec = []; taint = []
@@ -488,6 +499,15 @@ def replay(h, L, read=False):
                                      " (a BatchSafe(Finalize()) stage is STORED in the pipelines: every later stage lands behind it)" if fc == "finalize-stored" else ""), k + 1))
                 t = t or bool(fc)
                 objs.append(new); spec.append(exp); taint.append(t)
+                if read_sources and s["c"]["op"] in SIZED:
+                    # what a static constructor made can be read: n_interactions interactions (None: as many as asked for)
+                    for i, p in enumerate(exp):
+                        want = 2 if p[0][1][0] == -1 else min(2, p[0][1][0])
+                        try: cnt = len(list(itertools.islice(new[i].read(), 2)))
+                        except Exception as e:
+                            raise Mismatch("%s:read-raises:%s%s" % (op, type(e).__name__, ":n_interactions-None" if p[0][1][0] == -1 else ""),
+                                           "reading the first two interactions of %s raised %s: %s" % (show_pipe(p), type(e).__name__, str(e)[:100]))
+                        if cnt != want: raise Mismatch("%s:read-count" % op, "%s gave %d interactions when asked for two" % (show_pipe(p), cnt))
                 views = [[dict(st) for st in p] + ([dict(k="Fin", a=[0], s=[])] if fa else []) for p, fa in zip(s["res"], s["finadd"])] if read else None
                 check_object(new, exp, s["finadd"], s["keys"], L, op, t, read=views)
             # nobody else changed: the operands are re-read, all other objects keep the very same stage objects
@@ -546,11 +566,11 @@ def runs_of(ctx):
         add("forms-1src", "S1", "AllForms", 1, 12)
         add("forms-3src", "S3", "AllForms", 1, 12)
         add("forms-empty", "S0", "AllForms", 1, 12)
-        add("forms-sim", "S3", "AllForms", 4, 12, sim=dict(num=1500), depth=5)
-        add("triples-sim", "S2", "Canon", 3, 12, sim=dict(num=2500), depth=4)
-        add("seq-sim", "S3", "SeqDeep", 6, 8, sim=dict(num=1500), depth=7)
-        add("multi-sim", "S3", "MultiDeep", 4, 24, sim=dict(num=1000), depth=5)
-        add("read-sim", "SL", "ReadCalls", 3, 8, sim=dict(num=400), depth=4, read=True)
+        add("forms-sim", "S3", "AllForms", 4, 12, sim=dict(num=40), depth=5)
+        add("triples-sim", "S2", "Canon", 3, 12, sim=dict(num=40), depth=4)
+        add("seq-sim", "S3", "SeqDeep", 6, 8, sim=dict(num=25), depth=7)
+        add("multi-sim", "S3", "MultiDeep", 4, 24, sim=dict(num=20), depth=5)
+        add("read-sim", "SL", "ReadCalls", 3, 8, sim=dict(num=10), depth=4, read=True)
     return R
 
 
@@ -629,7 +649,7 @@ def run(ctx):
                 ops_seen[s["c"]["op"]] += 1; forms_seen.add((s["c"]["op"], s["c"]["f"], s["c"]["vf"]))
             total += 1
             ctx.case((run_["name"], show(h)))
-            bad = replay(h, L, read=run_["read"])
+            bad = replay(h, L, read=run_["read"], read_sources=run_["name"].startswith("forms-") and not run_["sim"])
             for sig, what, step in (bad or []):
                 ctx.violation(sig, what + "   history: " + show(h), dict(run=run_["name"], start=h["start"], steps=[dict(c=s["c"], r=s["r"], q=s["q"]) for s in h["steps"]], failing_step=step))
         if hs:
